@@ -862,11 +862,13 @@ def main(run: core.Run, only=None):
     run.drive(fars, family="far-from-origin")
     return run.finish(
         rule="strictly convex lattice lots (every stride-th of 2719) x scale x offset x spacing x single rotations; axis-aligned rectangles; "
-             "optimisers over rotation windows with / without perimeter ratio and no-go zone; one evaluation = one generator or optimiser "
+             "optimisers over rotation windows with / without perimeter ratio and no-go zone (also on an outline object optimised before with other zones); strips with a side of 0.75 / 1 / 1.5 spacings; "
+             "several no-go zones (12 arrangements x 3 axes x rotations x perimeter on/off, 4 lots); n-gons with 9-12 vertices; the documented demo outline with its no-go polygon; lots far from the origin; "
+             "shape objects reused across rotations; one evaluation = one generator or optimiser "
              "call under a CPU-time horizon; non-trivial = rotated rows, or a lot touching the axes, rectangles, optimiser runs",
         bounds={"convex_lattice_polygons": npoly, "stride": stride, "scales_m": [20.0] if quick else [20.0, 33.3], "offsets_m": [0.0, 7.5],
                 "single_rotations_deg": ROTS, "cpu_horizon_s": HORIZON_S},
-        assumptions=["outlines are listed counter-clockwise, and every second / third chunk of lots also clockwise", "lots narrower than two spacings are skipped and counted",
+        assumptions=["outlines are listed counter-clockwise, and every second / third chunk of lots also clockwise", "lattice lots narrower than two spacings are skipped and counted (narrow lots are covered by the strips of the rectangle family)",
                      "rotations within 1e-9 degree of the end of a window may or may not be tried (float accumulation in the sweep)",
                      "spacing is asserted only without perimeter spacing and without no-go zones, as the property states"],
         require_outcomes=("generated", "rectangle", "optimised", "nogo_generated", "far_generated", "clockwise_outline", "ngon", "demo_generated"),
